@@ -231,16 +231,14 @@ Qed.
 (* an integer literal followed by the \relax that readInternalType pushes *)
 Lemma read_int_relax : forall sr l rest lvl, il_ok l ->
   read_integer true (print_signs sr ++ il_toks l ++ relax_tok :: rest) lvl
-  = Ok (sign_value sr * il_value l) (Cs (KInert kw_relax) true :: rest) lvl.
+  = Ok (sign_value sr * il_value l) (relax_tok :: rest) lvl.
 Proof.
   intros sr l rest lvl Hok.
   assert (Hend : forall set, ends_run (lvl - 1) set (relax_tok :: rest)).
-  { intros set. cbn. eexists. split; [reflexivity|exact I]. }
+  { intros set. left. reflexivity. }
   destruct l as [ds|ds|ds]; cbn [il_toks il_ok il_value] in *.
   - destruct Hok as (Hne & Hds). destruct ds as [|d ds]; [congruence|].
-    rewrite (read_integer_dec sr d ds (relax_tok :: rest) lvl Hds (Hend _)).
-    + reflexivity.
-    + cbn. eexists. split; [reflexivity|reflexivity].
+    rewrite (read_integer_dec sr d ds (relax_tok :: rest) lvl Hds (Hend _)); reflexivity.
   - cbn [app]. rewrite (read_integer_oct sr ds (relax_tok :: rest) lvl Hok (Hend _)). reflexivity.
   - cbn [app]. rewrite (read_integer_hex sr ds (relax_tok :: rest) lvl Hok (Hend _)). reflexivity.
 Qed.
@@ -256,7 +254,8 @@ Proof.
   assert (Hp : forallb is_plain (print_signs sr ++ il_toks l) = true) by (apply forallb_app_true; [apply signs_plain|apply il_plain, Hok]).
   rewrite (read_argument_generic a k piece (print_signs sr ++ il_toks l) rest lvl) by (rewrite ?Hc; auto).
   unfold cast. rewrite (plain_modelled _ Hp), Hc. unfold internal. rewrite (plain_expand _ _ Hp).
-  rewrite <- app_assoc. change (Cs (KInert kw_relax) false) with relax_tok. rewrite (read_int_relax sr l rest (lvl - 1) Hok), drop_relax.
+  rewrite <- app_assoc. change (Cs (KInert kw_relax) false) with relax_tok. rewrite (read_int_relax sr l rest (lvl - 1) Hok).
+  unfold relax_tok. rewrite drop_relax.
   eexists. split; [replace (lvl - 1 + 1) with lvl by lia; reflexivity|reflexivity].
 Qed.
 
@@ -271,12 +270,12 @@ Proof.
   unfold cast. rewrite (plain_modelled _ Hp), Hc. unfold internal. rewrite (plain_expand _ _ Hp).
   rewrite <- app_assoc. change (Cs (KInert kw_relax) false) with relax_tok.
   destruct (read_decimal_print (lvl - 1) sr d (relax_tok :: rest) Hok) as (q & Hr & Hq).
-  { cbn. eexists. split; [reflexivity|exact I]. }
-  { intros _. cbn. intros cat c E. discriminate. }
+  { left. reflexivity. }
+  { intros _. cbn. eexists. split; [reflexivity|]. intros cat c E. discriminate. }
   rewrite Hr.
-  assert (Hrest : dec_rest (lvl - 1) d (relax_tok :: rest) = Cs (KInert kw_relax) true :: rest).
+  assert (Hrest : drop_to_relax (dec_rest (lvl - 1) d (relax_tok :: rest)) = rest).
   { unfold dec_rest. destruct (d_point d); reflexivity. }
-  rewrite Hrest, drop_relax.
+  rewrite Hrest.
   eexists. split; [replace (lvl - 1 + 1) with lvl by lia; reflexivity|]. exists q. auto.
 Qed.
 
@@ -321,7 +320,8 @@ Proof.
   - destruct m; reflexivity.
 Qed.
 
-Definition stable_head (rest : list tok) : Prop := match rest with [] => True | t :: _ => is_plain t = true end.
+(* what follows a Number argument is not a register (a register would multiply the constant: known finding) *)
+Definition not_register_head (rest : list tok) : Prop := match rest with [] => True | t :: _ => is_register t = false end.
 
 Lemma il_head : forall l, il_ok l -> exists t r, il_toks l = t :: r /\ cat_of t <> 10.
 Proof.
@@ -332,10 +332,10 @@ Proof.
   - eexists; eexists; split; [reflexivity|cbn; lia].
 Qed.
 
-(* Number: the literal is followed by a blank (taken) and then by a character token; a brace or a control sequence right
-   after a Number argument is the known look-ahead finding *)
+(* Number: the literal is ended by a blank (taken); whatever follows -- a brace, a control sequence, text -- is left untouched
+   and unexpanded, unless it is a register *)
 Lemma areads_number : forall a sr l rest,
-  classify (a_type a) = TyNumberP -> il_ok l -> stable_head rest ->
+  classify (a_type a) = TyNumberP -> il_ok l -> not_register_head rest ->
   areads a (print_signs sr ++ il_toks l ++ blank :: rest) (eq (VInt (sign_value sr * il_value l))) rest.
 Proof.
   intros a sr l rest Hc Hok Hst lvl. unfold read_argument. rewrite Hc.
@@ -345,18 +345,13 @@ Proof.
   set (sr' := mkSR 0 (sr_signs sr)).
   assert (Hsv : sign_value sr' = sign_value sr) by reflexivity.
   assert (Hend : forall set, memz 32 set = false -> ends_run (lvl - 1 - 1) set (blank :: rest)).
-  { intros set Hs. cbn. eexists. split; [reflexivity|exact Hs]. }
-  assert (Hpeek : peek (lvl - 1 - 1) rest = rest /\ no_register_next (lvl - 1 - 1) rest).
-  { destruct rest as [|t r]; [split; exact I || reflexivity|]. cbn in Hst.
-    destruct t as [cat c|kk e]; [|discriminate]. cbn in Hst. apply negb_true_iff in Hst.
-    cbn [peek no_register_next]. rewrite (expand1_plain _ _ _ Hst). split; [reflexivity|]. eexists. split; [reflexivity|exact I]. }
-  destruct Hpeek as (Hpk & Hnr).
+  { intros set Hs. right. eexists. split; [reflexivity|exact Hs]. }
   destruct l as [ds|ds|ds]; cbn [il_toks il_ok il_value] in *.
   - destruct Hok as (Hne & Hds). destruct ds as [|d ds]; [congruence|].
     rewrite (read_integer_dec sr' d ds (blank :: rest) (lvl - 1) Hds (Hend tex_dec eq_refl)).
-    + change (seq_rest (lvl - 1 - 1) true (blank :: rest)) with rest. rewrite Hpk, Hsv. cbn [of_res].
+    + change (seq_rest (lvl - 1 - 1) true (blank :: rest)) with rest. rewrite Hsv. cbn [of_res].
       eexists. split; [replace (lvl - 1 + 1) with lvl by lia; reflexivity|reflexivity].
-    + change (seq_rest (lvl - 1 - 1) true (blank :: rest)) with rest. exact Hnr.
+    + change (seq_rest (lvl - 1 - 1) true (blank :: rest)) with rest. exact Hst.
   - cbn [app]. rewrite (read_integer_oct sr' ds (blank :: rest) (lvl - 1) Hok (Hend tex_oct eq_refl)).
     change (seq_rest (lvl - 1 - 1) true (blank :: rest)) with rest. rewrite Hsv. cbn [of_res].
     eexists. split; [replace (lvl - 1 + 1) with lvl by lia; reflexivity|reflexivity].
@@ -675,8 +670,8 @@ Qed.
    satisfies P, and s' is what follows.  One constructor per form; the side conditions say precisely what is excluded:
    - str: the text contains only character tokens (a group or a macro inside is the known finding str-of-group);
    - int / float / dimen casts: the argument is exactly a printed literal (signs, digits / decimal / dimension);
-   - Number: the literal is ended by a blank and followed by a character token (a brace or control sequence there is the known
-     look-ahead finding); Dimen, Glue: as in the numeric theorems (after fil/fill no further l; absent plus/minus really absent);
+   - Number: the literal is ended by a blank and not followed by a register (which would multiply it: known finding);
+     Dimen, Glue: as in the numeric theorems (after fil/fill no further l; absent plus/minus really absent);
    - list / dict: items, keys and values are character tokens without the delimiter (and without = in a dict), subtype none or
      a string type, values non-empty, delimiter other than = for dict. *)
 Inductive conforms : arg -> list tok -> (aval -> Prop) -> list tok -> Prop :=
@@ -715,7 +710,7 @@ Inductive conforms : arg -> list tok -> (aval -> Prop) -> list tok -> Prop :=
     classify (a_type a) = TyDimenC -> delimited (a_spec a) piece (print_dim p) -> pdim_ok dimen_units p ->
     conforms a (blanks k ++ piece ++ rest) (dimen_value p) rest
 | c_number : forall a sr l rest,
-    classify (a_type a) = TyNumberP -> il_ok l -> stable_head rest ->
+    classify (a_type a) = TyNumberP -> il_ok l -> not_register_head rest ->
     conforms a (print_signs sr ++ il_toks l ++ blank :: rest) (eq (VInt (sign_value sr * il_value l))) rest
 | c_dimen : forall a p rest,
     classify (a_type a) = TyDimenP -> pdim_ok dimen_units p ->
